@@ -212,6 +212,17 @@ func init() {
 					}
 				}
 			}
+			// large inputs under every setting of the format: files beyond every compressor window (noise, zeros),
+			// thousands of files
+			for _, f := range Formats {
+				for _, s := range c04Settings(f) {
+					for _, l := range [][]model.Entry{{{Src: "huge/noise.bin", Dst: "/opt/noise.bin"}}, {{Src: "huge", Dst: "/opt/huge", Type: "tree"}, {Src: "etc/app.conf", Dst: "/etc/app.conf", Type: "config"}}, {{Src: "many", Dst: "/opt/many", Type: "tree"}}} {
+						if !yield(C04Case{Class: "large", Format: f, Setting: s, List: l}) {
+							return
+						}
+					}
+				}
+			}
 			// a changelog (deb ships it as a generated payload member below /usr/share/doc/<name>/, rpm in header tags)
 			for _, f := range []string{"deb", "rpm"} {
 				for _, l := range [][]model.Entry{nil, {ts[0]}, {{Src: "doc/README", Dst: "/usr/share/doc/pkg/README"}}, {{Dst: "/usr/share/doc", Type: "dir"}}, {{Src: "tree", Dst: "/usr/share/doc/pkg/examples", Type: "tree"}}} {
